@@ -3,6 +3,8 @@ import PygVerif.Lemmas.Escape
 import PygVerif.Lemmas.Selector
 import PygVerif.Model.Listing
 import PygVerif.Model.Proto
+import PygVerif.Lemmas.Site
+import PygVerif.Props.C07
 /-!
 # C05 — Listings only advertise what the server will serve (link closure)
 
@@ -144,6 +146,116 @@ theorem gemini_root_link (srv : ServerId) :
   have h1 : startsUrl [] = false := by decide
   have h2 : quote [] = some [] := by decide
   simp [gemUrl, h1, h2, Entry.isLocal]
+
+/-! ### closure on the whole-site model (`Model/Site`): what a directory lists is what a request gets
+
+`st` is any view of the file system (`statAt R` below a root, `kstat W root` in the kernel's
+terms); the statements hold for every tree, every configuration and every name. -/
+
+/-- the handler that answers a selector is a file handler exactly when the object is a
+    regular file not claimed as a gophermap; then the response is that file's bytes -/
+theorem ite_ne' {α : Type} {p : Prop} [Decidable p] {a b x : α} (ha : a ≠ x) (hb : b ≠ x) :
+    (if p then a else b) ≠ x := by split <;> assumption
+
+theorem dispatch_file_serves_document (c : SiteCfg) (st : StatFn) (sel : Str)
+    (h : dispatch c st sel = .file) : ∃ d, st sel = some (.file d) ∧ serve c st sel = .document d := by
+  have h0 := h
+  unfold dispatch at h
+  by_cases hs : secureB c.forbidden sel = true
+  · simp only [hs, Bool.not_true, Bool.false_eq_true, if_false] at h
+    cases hst : st sel with
+    | none => simp [hst] at h
+    | some n =>
+      cases n with
+      | file d => exact ⟨d, rfl, by simp [serve, h0, hst]⟩
+      | other => simp [hst] at h
+      | dir kids =>
+        simp only [hst] at h
+        exact absurd h (ite_ne' (by decide) (by decide))
+  · have : secureB c.forbidden sel = false := by simpa using hs
+    simp [this] at h
+
+/-- what `childOf` records for a member, stated for an arbitrary selector -/
+theorem member_entry_spec (c : SiteCfg) (st : StatFn) (sel : Str) (e : Entry) (isf : Bool)
+    (h : (match dispatch c st sel with
+          | .notFound => none
+          | hd => (entryAt c st sel).map fun e => (e, hd == .file)) = some (e, isf)) :
+    e.selector = sel ∧ serve c st sel ≠ .notFound ∧
+    (isf = true → ∃ d, st sel = some (.file d) ∧ serve c st sel = .document d) ∧
+    (isf = false → serve c st sel = .menu) := by
+  have hsel : ∀ a, entryAt c st sel = some a → a.selector = sel := by
+    intro a ha
+    unfold entryAt at ha
+    cases hp : popAt c st sel with
+    | none => simp [hp] at ha
+    | some pi =>
+      simp only [hp, Option.map_some, Option.some.injEq] at ha
+      rw [← ha, populateWith_selector]
+      split <;> rfl
+  cases hd : dispatch c st sel with
+  | notFound => rw [hd] at h; cases h
+  | file =>
+    rw [hd] at h
+    obtain ⟨a, ha, hpair⟩ := Option.map_eq_some_iff.mp h
+    obtain ⟨d, hst, hsv⟩ := dispatch_file_serves_document c st sel hd
+    have he : a = e := (Prod.mk.inj hpair).1
+    have hi : isf = true := by rw [← (Prod.mk.inj hpair).2]; decide
+    subst he
+    exact ⟨hsel _ ha, by rw [hsv]; simp, fun _ => ⟨d, hst, hsv⟩, fun hf => by rw [hi] at hf; cases hf⟩
+  | dir =>
+    rw [hd] at h
+    obtain ⟨a, ha, hpair⟩ := Option.map_eq_some_iff.mp h
+    have he : a = e := (Prod.mk.inj hpair).1
+    have hi : isf = false := by rw [← (Prod.mk.inj hpair).2]; decide
+    have hsv : serve c st sel = .menu := by unfold serve; rw [hd]
+    subst he
+    exact ⟨hsel _ ha, by rw [hsv]; simp, (fun ht => by rw [hi] at ht; cases ht), fun _ => hsv⟩
+  | gophermapDir =>
+    rw [hd] at h
+    obtain ⟨a, ha, hpair⟩ := Option.map_eq_some_iff.mp h
+    have he : a = e := (Prod.mk.inj hpair).1
+    have hi : isf = false := by rw [← (Prod.mk.inj hpair).2]; decide
+    have hsv : serve c st sel = .menu := by unfold serve; rw [hd]
+    subst he
+    exact ⟨hsel _ ha, by rw [hsv]; simp, (fun ht => by rw [hi] at ht; cases ht), fun _ => hsv⟩
+  | gophermapFile =>
+    rw [hd] at h
+    obtain ⟨a, ha, hpair⟩ := Option.map_eq_some_iff.mp h
+    have he : a = e := (Prod.mk.inj hpair).1
+    have hi : isf = false := by rw [← (Prod.mk.inj hpair).2]; decide
+    have hsv : serve c st sel = .menu := by unfold serve; rw [hd]
+    subst he
+    exact ⟨hsel _ ha, by rw [hsv]; simp, (fun ht => by rw [hi] at ht; cases ht), fun _ => hsv⟩
+
+/-- **A listed member is served.**  If a directory member contributes an entry to a listing,
+    that entry's selector is `base/name`, a request for it is *not* answered not-found, and it
+    is a document (the file's own bytes) when the entry was produced by the file handler and a
+    menu otherwise. -/
+theorem listed_member_is_served (c : SiteCfg) (st : StatFn) (base name : Str) (k : Node) (e : Entry) (isf : Bool)
+    (h : (childOf c st base name k).entry = some (e, isf)) :
+    e.selector = base ++ [47] ++ name ∧ serve c st e.selector ≠ .notFound ∧
+    (isf = true → ∃ d, st e.selector = some (.file d) ∧ serve c st e.selector = .document d) ∧
+    (isf = false → serve c st e.selector = .menu) := by
+  have := member_entry_spec c st (base ++ [47] ++ name) e isf h
+  rw [this.1]
+  exact ⟨rfl, this.2⟩
+
+/-- **Link closure of a real directory.**  Every entry in the plain directory handler's
+    listing of any directory of any site is answered with a success response when its selector
+    is requested — whatever the names look like.  (The UMN handler adds entries that link
+    files *author*; those are content, and a link file may name what does not exist.) -/
+theorem plain_listing_closed (c : SiteCfg) (hu : c.dir.umn = false) (st : StatFn) (sel : Str) (es : List Entry)
+    (hd : dispatch c st sel = .dir) (h : siteEntries c st sel = some es) :
+    ∀ e ∈ es, serve c st e.selector ≠ .notFound := by
+  intro e he
+  simp only [siteEntries, hd] at h
+  cases hk : kidsAt st sel with
+  | none => simp [hk] at h
+  | some kids =>
+    simp only [hk, Option.bind_some] at h
+    obtain ⟨ch, hch, b, hent, _⟩ := Pyg.Props.C07.plain_nothing_else c.dir hu sel _ es h e he
+    obtain ⟨⟨n, k⟩, _, rfl⟩ := List.mem_map.mp hch
+    exact (listed_member_is_served c st _ n k e b hent).2.1
 
 /-! non-vacuity: a name with a space, reserved characters and a non-UTF-8 byte -/
 example : Normal (lit "/a b/q?&=#" ++ [0xff] ++ lit ".txt") := by
